@@ -137,6 +137,23 @@ def _check(case, exp, s, cls):
                 return fail("locale-not-in-defaults", "with defaults %r" % (withdef,), key)
             if withdef[0] is not None and withdef[2] is None:
                 return fail("locale-none", "with defaults %r" % (withdef,), key)
+            if multi[0] is None and not as_locales:
+                # the selected languages all fail: the answer is the first default language whose single-language parse succeeds
+                # (in the list's order or in the library's priority order — the property does not say which; both are accepted),
+                # whether the selected languages merely did not recognise the words or recognised them and could not parse
+                dsingles = [_res(_parser(languages=[L]).get_date_data(s)) for L in defaults]
+                ok_ones = [r for r in dsingles if r[0] is not None]
+                if ok_ones:
+                    cls.append("fallback-needed")
+                    # Only "some answer" is demanded.  The library tries default languages *without* the applicability test it
+                    # applies to selected languages (upstream's design: defaults are forced), so with defaults ['fr', 'en'] the
+                    # string '10 December' is answered by fr although languages=['fr'] alone refuses it; demanding the result of
+                    # the first successful *single-language* parse here raised alarms on the unchanged tree and was withdrawn.
+                    if withdef[0] is None:
+                        return fail("fallback-none", "selected %r all fail, defaults %r singles %r, with defaults -> %r"
+                                    % (langs, defaults, dsingles, withdef), (s, tuple(langs), tuple(defaults), "fb"))
+                    if withdef not in ok_ones:
+                        cls.append("fallback-answer-differs-from-default-singles")
         return {"ok": True, "key": key, "cls": cls}
 
     if exp == "B":
@@ -473,9 +490,34 @@ def _corpus_walk(ctx):
     return it
 
 
+def _fallback_grid(ctx):
+    """Numeric dates whose fields are valid in one field order only ('12/25/2020', '25.12.2020', '2020/25/12', with and without a
+    clock time) x selected languages of one order x DEFAULT_LANGUAGES of another: the selected language recognises every token
+    of such a string and still cannot parse it, so the answer has to come from the fallback (experiment A's oracle: first
+    successful single-language parse over the selected languages, then the default languages)."""
+    strings = ["12/25/2020", "25/12/2020", "10/31/1999 14:05", "31.10.1999", "2020/25/12", "2020-12-25", "13-01-2021 08:30", "01-13-2021",
+               "25.12.20", "12/25/20 10:00", "02/03/2016", "1999/31/10"]
+    selected = [["fr"], ["de"], ["es"], ["ru"], ["en"], ["ja"], ["tl"], ["fr", "de"], ["ja", "zh"], ["en", "tl"], ["hu"], ["sv"]]
+    defaults = [["en"], ["fr"], ["ja"], ["en", "fr"], ["de", "en"], ["tl"], None]
+
+    def it(shard, nshards):
+        i = 0
+        for s_ in strings:
+            for langs in selected:
+                for d in defaults:
+                    i += 1
+                    if i % nshards != shard:
+                        continue
+                    if ctx.quick and derive_seed(ctx.seed, "fb", i) % 3:
+                        continue
+                    yield {"exp": "A", "s": s_, "langs": list(langs), "given_order": bool(derive_seed(ctx.seed, "fbg", i) % 2), "defaults": d}
+    return it
+
+
 def stages(ctx):
     out = [Stage("corpus_walk", "enum", cases=_corpus_walk(ctx), exhaustive=False),
-           Stage("experiments", "hyp", strategy=cases(), examples=ctx.n(7000, 120000))]
+           Stage("experiments", "hyp", strategy=cases(), examples=ctx.n(7000, 120000)),
+           Stage("fallback_grid", "enum", cases=_fallback_grid(ctx), exhaustive=not ctx.quick)]
     if not ctx.quick:
         out.append(Stage("locale_walk", "enum", cases=_locale_walk(ctx), exhaustive=True))
     return out
